@@ -340,6 +340,15 @@ func (gowFamily) Exec(c *hc.Case) {
 	if p.Circuit == "normal" && p.K%4 == 0 {
 		goexitProbe(c)
 	}
+	if c.ID == 1 {
+		slowLostErrorsProbe(c)
+		for k := 0; k < 8 && len(c.Viol) == 0; k++ { // who gets a value that two parties wait for is a coin toss
+			fallbackPanicAfterAbandonedRunProbe(c)
+		}
+	}
+	if c.ID == 0 && hc.Long {
+		lateOutcomeProbe(c)
+	}
 	c.Tags = []string{"order:" + p.Order, "outcome:" + p.Outcome, "via:" + p.Via, "circuit:" + p.Circuit, fmt.Sprintf("lost:%v", p.Lost), "ctx_end:" + p.CtxEnd}
 	if ctxErr {
 		c.Tags = append(c.Tags, "result:ctx_error")
@@ -570,5 +579,106 @@ func goexitProbe(c *hc.Case) {
 			c.Viol = append(c.Viol, hc.Violation{Clause: "C18: Go returns as soon as the run function finishes, or as soon as the caller's context or the execution timeout ends", Detail: "a function that ends its goroutine with runtime.Goexit: Go had not returned 5 s after both the execution timeout and the caller's deadline", AtOp: 0})
 		}
 		cancel()
+	}
+}
+
+// lateOutcomeProbe (-long only): the outcome of an abandoned function is surfaced through GoLostErrors however late
+// it comes -- here 33 s after Go gave up on it.
+func lateOutcomeProbe(c *hc.Case) {
+	var mu sync.Mutex
+	var got []error
+	var cfg circuit.Config
+	cfg.Execution.Timeout = 20 * time.Millisecond
+	cfg.General.GoLostErrors = func(err error, _ interface{}) {
+		mu.Lock()
+		got = append(got, err)
+		mu.Unlock()
+	}
+	cir := circuit.NewCircuitFromConfig("gow-late-outcome", cfg)
+	late := errors.New("33 s late")
+	release := make(chan struct{})
+	_ = cir.Go(context.Background(), func(context.Context) error { <-release; return late }, nil)
+	time.Sleep(33 * time.Second)
+	close(release)
+	for i := 0; i < 300; i++ {
+		mu.Lock()
+		n := len(got)
+		mu.Unlock()
+		if n > 0 {
+			break
+		}
+		time.Sleep(10 * time.Millisecond)
+	}
+	mu.Lock()
+	defer mu.Unlock()
+	if len(got) != 1 || got[0] != late {
+		c.Viol = append(c.Viol, hc.Violation{Clause: "C18: the eventual outcome is surfaced exactly once whenever GoLostErrors is configured", Detail: fmt.Sprintf("a function abandoned at its 20 ms timeout returned its error 33 s later: GoLostErrors received %v", got), AtOp: 0})
+	}
+}
+
+// slowLostErrorsProbe: a GoLostErrors handler that is slow (here: parked) does not hold up OTHER Go calls of the
+// circuit whose timeout ends meanwhile.
+func slowLostErrorsProbe(c *hc.Case) {
+	parked := make(chan struct{}, 4)
+	unpark := make(chan struct{})
+	var cfg circuit.Config
+	cfg.Execution.Timeout = 20 * time.Millisecond
+	cfg.General.GoLostErrors = func(error, interface{}) {
+		parked <- struct{}{}
+		<-unpark
+	}
+	cir := circuit.NewCircuitFromConfig("gow-slow-handler", cfg)
+	defer close(unpark)
+	_ = cir.Go(context.Background(), func(context.Context) error { time.Sleep(40 * time.Millisecond); return gowRunFails }, nil)
+	select {
+	case <-parked:
+	case <-time.After(3 * time.Second):
+		return // the handler was never called: the exactly-once clauses report that
+	}
+	release := make(chan struct{})
+	defer close(release)
+	done := make(chan error, 1)
+	go func() {
+		done <- cir.Go(context.Background(), func(context.Context) error { <-release; return nil }, nil)
+	}()
+	select {
+	case <-done:
+	case <-time.After(3 * time.Second):
+		c.Viol = append(c.Viol, hc.Violation{Clause: "C18: Go returns as soon as the caller's context or the execution timeout ends, even if the run function never returns", Detail: "while the GoLostErrors handler of an EARLIER call was still running, a second Go call (20 ms timeout, function not returning) was still blocked after 3 s", AtOp: 0})
+	}
+}
+
+// fallbackPanicAfterAbandonedRunProbe: the run function outlives the timeout and is abandoned (a lost-errors waiter
+// is parked for it); the fallback then panics while the caller's context is alive: that panic, the very value,
+// reaches Go's caller.
+func fallbackPanicAfterAbandonedRunProbe(c *hc.Case) {
+	var cfg circuit.Config
+	cfg.Execution.Timeout = 20 * time.Millisecond
+	cfg.General.GoLostErrors = func(error, interface{}) {}
+	cir := circuit.NewCircuitFromConfig("gow-fb-panic", cfg)
+	release := make(chan struct{})
+	defer close(release)
+	val := &pstruct{7, 7}
+	type res struct {
+		err error
+		pv  interface{}
+	}
+	done := make(chan res, 1)
+	go func() {
+		var r res
+		func() {
+			defer func() { r.pv = recover() }()
+			r.err = cir.Go(context.Background(), func(context.Context) error { <-release; return nil },
+				func(context.Context, error) error { time.Sleep(15 * time.Millisecond); panic(val) })
+		}()
+		done <- r
+	}()
+	select {
+	case r := <-done:
+		if r.pv != interface{}(val) {
+			c.Viol = append(c.Viol, hc.Violation{Clause: "C10: a panic raised by the run function or the fallback reaches the caller of Go with the same panic value (the call's context has not ended)", Detail: fmt.Sprintf("run function abandoned at its timeout (GoLostErrors configured), fallback panicked with %p: Go returned err=%v panic=%v", val, r.err, r.pv), AtOp: 0})
+		}
+	case <-time.After(3 * time.Second):
+		c.Viol = append(c.Viol, hc.Violation{Clause: "C10: a panic raised by the run function or the fallback reaches the caller of Go with the same panic value (the call's context has not ended)", Detail: "run function abandoned at its timeout (GoLostErrors configured), fallback panicked: Go had neither returned nor panicked 3 s later", AtOp: 0})
 	}
 }
